@@ -379,6 +379,10 @@ def r14_ident_positions(c, facts, rule='C05.R14'):
 
 
 def run(c, facts):
+    import c08 as _c08n
+    import c12 as _c12n
+    c.run(lambda c: _c08n.r17_name_keyed_state(c, facts, rule='C05.R18'))      # renaming consistently cannot make two declarations share evaluator state
+    c.run(lambda c: _c12n.r9_context_state(c, facts, rule='C05.R19'))          # parenthesising or inlining cannot exhaust a budget kept in the parsing context
     c.run(r14_ident_positions, facts)
     import c10
     c.run(r7_var_uniform, facts)
